@@ -23,8 +23,14 @@ RECURSIVE IterShift(_, _)
 IterShift(x, n) == IF n = 0 THEN x ELSE IterShift(ShiftStep(x), n-1)
 CrcTab == [i \in 0..255 |-> IterShift(i, 8)]
 CrcByte(crc, b) == CrcTab[crc ^^ b]
-RECURSIVE Crc8(_, _)
-Crc8(crc, s) == IF s = <<>> THEN crc ELSE Crc8(CrcByte(crc, Head(s)), Tail(s))
+\* a fold over index ranges by halving: recursion depth log n (TLC's cost per call grows with the depth of the call chain, and
+\* Tail would copy the rest of the sequence at every step); testing the left half forces its evaluation before the right starts
+RECURSIVE Crc8R(_, _, _, _)
+Crc8R(crc, s, lo, hi) ==
+   IF lo > hi THEN crc
+   ELSE IF lo = hi THEN CrcByte(crc, s[lo])
+   ELSE LET mid == (lo + hi) \div 2  left == Crc8R(crc, s, lo, mid) IN IF left >= 0 THEN Crc8R(left, s, mid + 1, hi) ELSE left
+Crc8(crc, s) == Crc8R(crc, s, 1, Len(s))
 CrcOf(s) == Crc8(255, s)
 
 \* ----- contexts ---------------------------------------------------------------
@@ -38,8 +44,11 @@ Esc(cx, b) == IF b = cx.START THEN <<cx.STUB, cx.SSTART>>
               ELSE IF b = cx.STUB THEN <<cx.STUB, cx.SSTUB>>
               ELSE IF b = cx.STOP THEN <<cx.STUB, cx.SSTOP>>
               ELSE <<b>>
+\* divide and conquer: n log n instead of the n^2 of a head/tail recursion (frames of tens of thousands of bytes are judged)
 RECURSIVE EscAll(_, _)
-EscAll(cx, s) == IF s = <<>> THEN <<>> ELSE Esc(cx, Head(s)) \o EscAll(cx, Tail(s))
+EscAll(cx, s) == IF s = <<>> THEN <<>>
+                 ELSE IF Len(s) = 1 THEN Esc(cx, s[1])
+                 ELSE LET h == Len(s) \div 2 IN EscAll(cx, SubSeq(s, 1, h)) \o EscAll(cx, SubSeq(s, h + 1, Len(s)))
 Encode(cx, p) == <<cx.START>> \o EscAll(cx, p) \o Esc(cx, CrcOf(p)) \o <<cx.STOP>>
 
 \* unescape code -> byte, or -1 for an invalid escape
